@@ -212,6 +212,126 @@ let readd_class () =
   let show s = Printf.sprintf "managed=%s live=%d" (b01 (managed s)) (int_of_nat (supervisors s)) in
   if show s1 = show s2 then print_endline (show s1) else print_endline ("!orders-differ " ^ show s1 ^ " / " ^ show s2)
 
+(* ---- reports in flight / dials in flight (Driver/SupervisorFlight.v), the tree's flags ----
+   hold <up0> <tok> ...   script tokens: DE (attempt accepted, stays) DR DS DB (attempt fails) X T
+                          H (the next SDK call is slow) R (it returns) W (watch: no model event)
+   log tokens: d0 hs fail norm stop cU cD (slow call made) rU+ rD+ (call returned) rU+h rD+h (the slow one returned) *)
+let fevent_of_tok (t:string) : fevent option =
+  match t with
+  | "DE" -> Some (FDial true) | "DR" | "DS" | "DB" -> Some (FDial false)
+  | "X" -> Some FDrop | "T" -> Some FStop | "H" -> Some FArm | "R" -> Some FComplete
+  | "W" -> None
+  | _ -> failwith ("bad token " ^ t)
+let fentry_s = function
+  | FLDial -> ["d0"] | FLPending -> ["pend"] | FLConn -> [] | FLHs -> ["hs"] | FLFail -> ["fail"]
+  | FLNorm -> ["norm"] | FLStop -> ["stop"]
+  | FLIssue Up -> ["cU"] | FLIssue Down -> ["cD"]
+  | FLDone (Up, late) -> [if late then "rU+h" else "rU+"]
+  | FLDone (Down, late) -> [if late then "rD+h" else "rD+"]
+let fshow (s:fstate) =
+  Printf.printf "%s | up=%s stopped=%s connected=%s edgex=%s\n"
+    (String.concat " " (List.concat_map fentry_s (f_log s)))
+    (b01 (f_isUp s)) (b01 (f_stopped s)) (b01 (f_conn s)) (match f_edgex s with Up -> "U" | Down -> "D")
+let hold_run up0 toks =
+  let s = ref (finit up0) in
+  let bad = ref (-1) in
+  List.iteri (fun k t ->
+      if !bad < 0 then
+        match fevent_of_tok t with
+        | None -> if not (f_busy !s) then bad := k       (* W only while the supervisor sits in the Down call *)
+        | Some e ->
+          (match e with
+           | FDial _ -> if not (fdial_enabled !s) then bad := k
+           | FDrop -> if not (f_conn !s) then bad := k
+           | FComplete -> if f_flight !s = None then bad := k
+           | _ -> ());
+          if !bad < 0 then s := fstep flags_tree !s e) toks;
+  if !bad >= 0 then Printf.printf "!disabled@%d\n" !bad else fshow !s
+
+(* can the harness place token t deterministically in model state s?  [stale]: an onConnect whose
+   connection ended while its Up call was in flight still has its SetReaderConfig to send; no further
+   ACCEPTED connection is scripted after that (refused attempts only).  [dialled]: an attempt has been made (Stop before the first
+   attempt is the StopAtEntry corner of the other class). *)
+let hold_feasible (s:fstate) stale dialled (t:string) : bool =
+  match t with
+  | "DE" -> fdial_enabled s && f_flight s <> Some Up && not stale
+  | "DR" -> fdial_enabled s
+  | "DS" | "DB" -> fdial_enabled s && not stale   (* every accepted connection ends the client the stale onConnect's
+                                                      SetReaderConfig waits on: after three of them it gives up and its
+                                                      resetConn holds clientLock for sendTimeout (20 s) *)
+  | "X" -> f_conn s
+  | "T" -> not (f_stopped s) && dialled
+  | "H" -> f_flight s = None && not (f_arm s) && not (f_stopped s)
+  | "R" -> f_flight s <> None
+  | _ -> false
+(* apply a token list (W inserted before every R that ends a Down call the supervisor waits in),
+   then finish: release what is in flight, Stop *)
+let hold_finish (up0:bool) (toks:string list) : string option =
+  let s = ref (finit up0) and stale = ref false and dialled = ref false and out = ref [] and ok = ref true in
+  let push t =
+    if t = "R" && f_busy !s && not (f_stopped !s) then out := "W" :: !out;
+    (match t with
+     | "X" | "T" -> if f_flight !s = Some Up && f_conn !s then stale := true
+     | _ -> ());
+    if String.length t = 2 && t.[0] = 'D' then dialled := true;
+    (match fevent_of_tok t with Some e -> s := fstep flags_tree !s e | None -> ());
+    out := t :: !out in
+  List.iter (fun t -> if !ok then (if hold_feasible !s !stale !dialled t then push t else ok := false)) toks;
+  if not !ok then None else begin
+    if not !dialled then push "DR";
+    if f_flight !s <> None then push "R";
+    if not (f_stopped !s) then push "T";
+    if f_flight !s <> None then push "R";
+    Some (Printf.sprintf "hold %s %s" (b01 up0) (String.concat " " (List.rev !out)))
+  end
+let hold_sys n =
+  let alpha = [| "DE"; "DR"; "X"; "H"; "R"; "T" |] in
+  let rec seqs k = if k = 0 then [[]] else
+      List.concat_map (fun tl -> Array.to_list (Array.map (fun o -> o :: tl) alpha)) (seqs (k - 1)) in
+  let seen = Hashtbl.create 997 in
+  for len = 1 to n do
+    List.iter (fun sq ->
+        if List.mem "H" sq then
+          List.iter (fun up0 ->
+              match hold_finish up0 sq with
+              | Some l -> if not (Hashtbl.mem seen l) then (Hashtbl.add seen l (); print_endline l)
+              | None -> ()) [true; false]) (seqs len)
+  done
+let hold_gen seed count maxlen =
+  Random.init seed;
+  let alpha = [| "DE"; "DE"; "DR"; "DR"; "DS"; "DB"; "X"; "X"; "H"; "H"; "H"; "R"; "R"; "T" |] in
+  let made = ref 0 and tries = ref 0 in
+  while !made < count && !tries < 200 * count do
+    incr tries;
+    let up0 = Random.bool () in
+    let s = ref (finit up0) and stale = ref false and dialled = ref false and acc = ref [] in
+    let len = 3 + Random.int (max 1 (maxlen - 2)) in
+    let k = ref 0 in
+    while List.length !acc < len && !k < 200 && not (f_stopped !s) do
+      incr k;
+      let t = alpha.(Random.int (Array.length alpha)) in
+      if hold_feasible !s !stale !dialled t && not (t = "T" && List.length !acc < len - 1) then begin
+        (match t with "X" | "T" -> if f_flight !s = Some Up && f_conn !s then stale := true | _ -> ());
+        if String.length t = 2 && t.[0] = 'D' then dialled := true;
+        (match fevent_of_tok t with Some e -> s := fstep flags_tree !s e | None -> ());
+        acc := t :: !acc
+      end
+    done;
+    let sq = List.rev !acc in
+    if List.mem "H" sq then
+      match hold_finish up0 sq with
+      | Some l -> print_endline l; incr made
+      | None -> ()
+  done
+
+(* pend <how> <k>: k attempts fail, the next dial hangs, Stop (or RemoveDevice) arrives, then the
+   reader starts accepting: connections established after Stop, in the model of the tree *)
+let pend_class k =
+  let pre = List.init k (fun _ -> FDial false) @ [FDialStart] in
+  let before = frun flags_tree (finit true) pre in
+  let after = frun flags_tree (finit true) (pre @ [FStop; FDialEnd true]) in
+  Printf.printf "late=%d\n" (int_of_nat (fconns (f_log after)) - int_of_nat (fconns (f_log before)))
+
 let () =
   try
     while true do
@@ -228,6 +348,10 @@ let () =
          (try let (s, m) = reg_run (rflags_of v) (List.map rev_of_tok toks) in
             Printf.printf "managed=%s live=%d maxlive=%d created=%d\n" (b01 (managed s)) (int_of_nat (supervisors s)) m (int_of_nat (next s))
           with Failure m -> print_endline ("error: " ^ m))
+       | "hold" :: up0 :: toks -> (try hold_run (up0 = "1") toks with Failure m -> print_endline ("error: " ^ m))
+       | ["fsys"; n] -> hold_sys (int_of_string n)
+       | ["fgen"; seed; count; ml] -> hold_gen (int_of_string seed) (int_of_string count) (int_of_string ml)
+       | ["pend"; _; k] -> pend_class (int_of_string k)
        | ["consts"] -> Printf.printf "maxConnAttempts=%d maxSendAttempts=%d\n"
                          (int_of_nat max_conn_attempts) (int_of_nat max_send_attempts)
        | [] -> ()
